@@ -219,6 +219,38 @@ def _validity_intervals(ctx, chk, wl, wflow, mod, gridp, closed, base_name, coln
                 elif isinstance(dv.elt.elts[lb.path[0]], ast.Constant):
                     first_label = "the constant %r for every interval" % dv.elt.elts[lb.path[0]].value
     if starts is None or ends is None:
+        # a construct that is readable and wrong: the boundaries passed through a value-changing function
+        VALUE_CHANGING = ("clip", "maximum", "minimum", "fmax", "fmin", "round", "around", "rint", "floor", "ceil", "trunc")
+        def _vc(c):
+            return isinstance(c, ast.Call) and ((isinstance(c.func, ast.Attribute) and c.func.attr in VALUE_CHANGING)
+                                                or (isinstance(c.func, ast.Name) and c.func.id in ("min", "max", "round")))
+        for nm in ("start", "thru"):
+            b_ = binding(names[nm])
+            cont = b_.container if b_ is not None and getattr(b_, "container", None) is not None else None
+            frontier = [cont] if cont is not None else []
+            seen_n = set()
+            hit = None
+            for _depth in range(3):
+                nxt = []
+                for e in frontier:
+                    dv = wflow.def_value(e) if isinstance(e, ast.Name) else e
+                    if dv is None:
+                        continue
+                    for c in ast.walk(dv):
+                        if _vc(c) and hit is None:
+                            hit = c
+                    for x in ast.walk(dv):
+                        if isinstance(x, ast.Name) and isinstance(x.ctx, ast.Load) and x.id not in seen_n:
+                            seen_n.add(x.id)
+                            nxt.append(x)
+                frontier = nxt
+            cur = hit
+            if cur is not None:
+                chk.ob("C10.O5", False, where_of(wl, cur), "the boundaries of the validity intervals are passed through %s" % ast.unparse(cur)[:80],
+                       "each validity interval runs from the first to the last measurement of a gap-free stretch (the source instants themselves), the first from the first grid time and the last to the last grid time",
+                       key="populate_water_level|boundaries-changed", local=True,
+                       why="a gap edge that lies outside the grid is moved onto the first / last grid time: the closed interval test then labels that grid instant, which lies strictly inside a gap of the source record, and a value is interpolated there")
+                return
         chk.indeterminate("C10.O5", where, "the start / end sequences of the validity intervals are not built in a way this rule reads (starts = %s, ends = %s)" % (show(starts), show(ends)))
         return
     want_s = [("one", "G[0]"), ("per", ["T[g+1]"])]
